@@ -111,6 +111,14 @@ def work(job):
         files = {"src/manylines.rs": (many_lines + '    info!("after many lines");' + eol + '    warn!(a = 1; "and one more");' + eol).encode(),
                  "src/longline.rs": ("fn l() {" + eol + pad + 'info!("far to the right"); error!("and further");' + eol + "}" + eol).encode()}
         structured = rnd.random() < 0.5
+    elif kind == "nostatements":
+        # readable in-scope files that hold no statement of a configured macro (a new crate, macros not used yet, everything ignored):
+        # nothing lacks a reference, so --check passes and prints a total of 0
+        variants = [b"fn main() {\n    println!(\"hello\");\n}\n", b"// nothing here\n", b"", b"fn f() {\n    // breadlog:ignore\n    info!(\"ignored\");\n}\n",
+                    b"pub mod a;\npub mod b;\n", b"fn g() { debug!(\"not configured\"); tracing::info!(\"other module\"); }\n", b"/* info!(\"in a comment\") */\n"]
+        files = {"src/n%d.rs" % k: rnd.choice(variants) for k in range(rnd.randrange(1, 5))}
+        truth_missing = 0
+        structured = rnd.random() < 0.5
     elif kind == "sameline":
         # several statements on one source line (match arms, if/else, closures): every one has its own column
         lines = []
@@ -216,6 +224,8 @@ def main(tier):
         jobs.append((built, "sameline", ck.seed, i, None))
     for i in range(6 if quick else 40):
         jobs.append((built, "bigcoords", ck.seed, i, None))
+    for i in range(60 if quick else 600):
+        jobs.append((built, "nostatements", ck.seed, i, None))
     for i in range(6):
         jobs.append((built, "crafted", ck.seed, i, i % 3))
     shards, reg = trees.corpus_shards(rnd, 16, registry_n=0 if quick else 1500)
